@@ -446,7 +446,7 @@ def catch_unsafe_program(prog) -> Optional[str]:
 
 
 def c01_classify(prog, meta, what):
-    return catch_unsafe_program(prog) or brace_resubstitution_program(prog)
+    return [x for x in (catch_unsafe_program(prog), brace_resubstitution_program(prog)) if x]
 
 
 def nontrivial_cache(prog, impl):
@@ -657,6 +657,13 @@ def hist_keys_eval(rng, cfg, g: G, meta, n_dicts=4):
     P = g.P
     root = g.expr("any", rng.randint(1, cfg.max_depth))
     fam = dict_family(rng, cfg, n_dicts)
+    if fam and rng.random() < 0.5:
+        # the library's own section is part of the dictionary like any other (AllOptions reports it; the switches,
+        # spelled out with their default values, change nothing else)
+        extra = copy.deepcopy(fam[0])
+        extra["LABREA"] = rng.choice([{"LOGGING": {"DISABLED": False}}, {"EFFECTS": {"DISABLED": False}},
+                                      {"CACHE": {"DISABLED": False, "DISABLE": False}}])
+        fam = fam + [sort_json(extra)]
     triples = []
     for o in fam:
         P.raw_op(op="reset")
@@ -708,7 +715,7 @@ def c03_phase2(items, impl, model, rng, tier) -> List[Item]:
                 p2["ops"] += [{"op": "reset"}, {"op": "keys", "n": root, "o": o4}, {"op": "fingerprint", "n": root, "o": o4}]
                 chk["inside"].append({"keys": b4 + 1, "fp": b4 + 2, "key": k, "o": o4})
             # perturbations outside K must leave keys (hence the fingerprint) and the outcome unchanged
-            outside = [k for k in o.keys() if not any(x == k or x.startswith(k + ".") for x in K)]
+            outside = [k for k in o.keys() if k != "LABREA" and not any(x == k or x.startswith(k + ".") for x in K)]
             for _ in range(2):
                 o3 = copy.deepcopy(o)
                 mode = rng.choice(["add", "change", "delete"]) if outside else "add"
@@ -802,7 +809,7 @@ def effect_reads_program(prog):
 
 
 def c03_classify(prog, meta, what):
-    return effect_reads_program(prog) or catch_unsafe_program(prog) or brace_resubstitution_program(prog)
+    return [x for x in (effect_reads_program(prog), catch_unsafe_program(prog), brace_resubstitution_program(prog)) if x]
 
 
 C03 = CoreProp("C03", ("keys", "eval", "reads"), c03_programs, c03_oracle, phase2=c03_phase2, classify=c03_classify,
@@ -1087,12 +1094,14 @@ def namespace_items(rng, n) -> List[Item]:
 
         def build_ns(key, depth):
             members = []
-            for nm in rng.sample(["A", "B", "C", "D"], rng.randint(1, 3)):
+            for nm in rng.sample(["A", "B", "C", "D", "_H"], rng.randint(1, 3)):
                 dflt_v = rng.choice([None, "none", "none", 0, "t{X}", [1], 5])
                 mk = lambda: (None if dflt_v == "none" else (P.template(dflt_v) if isinstance(dflt_v, str) else P.value(dflt_v)))
                 with_dom = rng.random() < 0.3
                 style = "annot" if dflt_v == "none" and not with_dom and rng.random() < 0.5 else \
                     ("plain" if dflt_v != "none" and not with_dom and rng.random() < 0.5 else "option")
+                if nm.startswith("_") and style == "plain":
+                    style = "option"      # a plain (un-annotated, non-Option) underscore attribute is private, not a member
                 dom = P.value([0, 1, None, "a", [1], 5, "t1"]) if with_dom else None
                 dom2 = P.value([0, 1, None, "a", [1], 5, "t1"]) if with_dom else None
                 if style == "option" and rng.random() < 0.35:
@@ -1191,9 +1200,32 @@ def c06_namespace_items(rng, n) -> List[Item]:
     return items
 
 
+def c06_derive_items(rng, n) -> List[Item]:
+    """`with_options` / `with_default_options` / `register` / `add_effects` are construction steps: none of them runs
+    a dataset body, also when the dataset's dispatch, default or an overload is itself a dataset that the pre-set
+    options would suffice to evaluate"""
+    items = []
+    for _ in range(n):
+        P = Prog()
+        P.const_fn("sel", "x")
+        disp = P.dataset([("m", P.option("M", dflt=P.value("x")))], fn_name="sel")
+        impl = P.dataset([("b", P.option("B", dflt=P.value(2)))])
+        root = P.dataset([("a", P.option("A", dflt=P.value(1)))], dispatch=disp, table=[("x", impl)])
+        members = [root]
+        for _ in range(rng.randint(1, 3)):
+            members.append(P.derive(rng.choice(members), rng.choice([{"M": "x"}, {"A": 3, "B": 4}, {"M": "y", "A": 0}]),
+                                    default=rng.random() < 0.4))
+        for m in members:
+            P.evaluate(m, {})
+            P.evaluate(m, {"M": "y"})
+        items.append((P.to_json(), {}))
+    return items
+
+
 def c06_programs(rng, tier) -> List[Item]:
     items = corpus_items("C06")
     items += c06_namespace_items(rng, sizes(tier, 15, 100))
+    items += c06_derive_items(rng, sizes(tier, 15, 100))
     cfg = Cfg(raising=False, catch_unsafe=True)
     items += gen_items(rng, cfg, sizes(tier, 300, 4000), hist_all_ops, ops=("evaluate",))
     return items
@@ -1201,6 +1233,9 @@ def c06_programs(rng, tier) -> List[Item]:
 
 def c06_oracle(prog, meta, impl, model):
     out = []
+    for i, (op, a) in enumerate(zip(prog["ops"], impl)):
+        if isinstance(a, dict) and "r" not in a and a.get("calls"):
+            out.append((f"the construction step `{op['op']}` ran user code", i, {"calls": a["calls"][:5]}))
     if impl and isinstance(impl[0], dict) and impl[0].get("construction_calls"):
         out.append(("building the graph ran user code", 0, {"calls": impl[0]["construction_calls"][:5]}))
     if not isinstance(model, list):
@@ -1339,8 +1374,44 @@ def derived_family_items(rng, n) -> List[Item]:
     return items
 
 
+def mutating_body_items(rng, n) -> List[Item]:
+    """bodies that edit their arguments in place: what an Option hands out — from the caller's dictionary, from
+    pre-set or from default options, containers nested in containers included — is the body's own copy, so neither
+    the caller's dictionary nor the pre-set / default dictionaries change, and a second evaluation sees what the
+    first one saw"""
+    items = []
+    VALS = [[[1, 2], [3, 4]], [{"lo": 0}], {"a": [1], "b": {"c": [2]}}, [1, [2, [3]]], {"k": {"m": {}}}, [[], [[]]]]
+    for _ in range(n):
+        P = Prog()
+        keys = rng.sample(["A", "S.X", "T.X", "B"], rng.randint(1, 3))
+        params = [(f"p{i}", P.option(k)) for i, k in enumerate(keys)]
+        fname = P.free(f"mut{rng.randint(0, 10**6)}", mutates=True)
+        preset: Dict[str, Any] = {}
+        dflt: Dict[str, Any] = {}
+        o: Dict[str, Any] = {}
+        for k in keys:
+            _put(rng.choice([preset, dflt, o, o]), k, copy.deepcopy(rng.choice(VALS)))
+        for k in keys:          # every key is available from somewhere
+            if all(ref_get(k, d)[0] != "found" for d in (preset, dflt, o)):
+                _put(o, k, copy.deepcopy(rng.choice(VALS)))
+        kw: Dict[str, Any] = {"cache": P.new_cache("nocache")}
+        if preset:
+            kw["options"] = preset
+        if dflt:
+            kw["default_options"] = dflt
+        d = P.dataset(params, fn_name=fname, **kw)
+        root = d if rng.random() < 0.6 else P.with_options(P.apply(P.option(keys[0]), P.fnvalue(fname)), preset or {"Z": 1})
+        checks = []
+        P.evaluate(root, sort_json(o))
+        P.evaluate(root, sort_json(o))
+        checks.append((len(P.ops) - 2, len(P.ops) - 1, "second evaluation after a body edited its arguments in place"))
+        items.append((P.to_json(), {"overlay": checks}))
+    return items
+
+
 def c08_programs(rng, tier) -> List[Item]:
     items = corpus_items("C08")
+    items += mutating_body_items(rng, sizes(tier, 40, 300))
     cfg = Cfg(raising=False, all_options=True)
     items += gen_items(rng, cfg, sizes(tier, 250, 3000), hist_overlay)
     items += derived_family_items(rng, sizes(tier, 60, 600))
@@ -1787,13 +1858,13 @@ def map_element_dispatch_program(prog) -> Optional[str]:
 
 def c11_classify(prog, meta, what):
     # (an effect that reads an option is no excuse here: explain() does list the effect's keys)
-    return (brace_resubstitution_program(prog) or param_in_option_value_program(prog) or scalar_prefix_program(prog)
-            or map_element_dispatch_program(prog))
+    return [x for x in (brace_resubstitution_program(prog), param_in_option_value_program(prog), scalar_prefix_program(prog),
+                        map_element_dispatch_program(prog)) if x]
 
 
 def c10_classify(prog, meta, what):
-    return (effect_reads_program(prog) or brace_resubstitution_program(prog) or param_in_option_value_program(prog)
-            or scalar_prefix_program(prog))
+    return [x for x in (effect_reads_program(prog), brace_resubstitution_program(prog), param_in_option_value_program(prog),
+                        scalar_prefix_program(prog)) if x]
 
 
 C10 = CoreProp("C10", ("validate", "keys", "eval", "trace", "reads"), c10_programs, c10_oracle, classify=c10_classify,
@@ -1839,7 +1910,65 @@ def c11_programs(rng, tier) -> List[Item]:
     cfge = Cfg(raising=False, domains=False, all_options=False, templates=True, total_fns=True, effect_reads_options=True, maps=False)
     items += gen_items(rng, cfge, sizes(tier, 60, 600), hist_explain)
     items += pinned_dispatch_items(rng, sizes(tier, 40, 400))
+    items += namespace_explain_items(rng, sizes(tier, 20, 150))
     return items
+
+
+def namespace_explain_items(rng, n) -> List[Item]:
+    """namespaces (members with and without defaults, names with a leading underscore included, nested): explain lists
+    what validate requires"""
+    items = []
+    for _ in range(n):
+        P = Prog()
+
+        def build_ns(key, depth):
+            members = []
+            for nm in rng.sample(["A", "B", "_H", "_T", "C"], rng.randint(2, 4)):
+                dv = rng.choice(["none", "none", 0, "t{X}"])
+                dflt = None if dv == "none" else (P.template(dv) if isinstance(dv, str) else P.value(dv))
+                style = "annot" if dv == "none" and rng.random() < 0.5 else "option"
+                members.append((nm, P.option(f"{key}.{nm}", dflt=dflt, nsmember=1, style=style)))
+            members.sort(key=lambda m: 0 if P.node(m[1]).get("style") == "annot" else 1)
+            if depth < 2 and rng.random() < 0.4:
+                sub_name = rng.choice(["SUB", "_PRIV"])
+                sub = build_ns(f"{key}.{sub_name}", depth + 1)
+                # (a nested plain class whose name starts with an underscore is private; a decorated one is a member)
+                P.node(sub)["explicit"] = True if sub_name.startswith("_") else rng.random() < 0.5
+                P.node(sub)["nsmember"] = 1
+                members.append((sub_name, sub))
+            return P.namespace(key, members, via="decorator")
+
+        ns = build_ns("NS", 1)
+        root = ns if rng.random() < 0.6 else P.collection("list", [ns, P.option("Q", dflt=P.value(1))])
+        full: Dict[str, Any] = {"X": 1}
+        for nd in P.nodes:
+            if nd["k"] == "option" and nd.get("nsmember"):
+                _put(full, nd["key"], rng.choice([0, 1, "a"]))
+        keys = list(_leaf_paths(full))
+        rng.shuffle(keys)
+        recs = []
+        subs = [{}]
+        cur: Dict[str, Any] = {}
+        for k in keys:
+            _put(cur, k, ref_get(k, full)[1])
+            subs.append(copy.deepcopy(cur))
+        for o in subs[:7]:
+            b = len(P.ops)
+            P.op("explain", root, sort_json(o))
+            P.op("keys", root, sort_json(o))
+            P.op("validate", root, sort_json(o))
+            recs.append({"x": b, "k": b + 1, "v": b + 2})
+        items.append((P.to_json(), {"explain": recs}))
+    return items
+
+
+def _leaf_paths(d, prefix=""):
+    for k, v in d.items():
+        p = f"{prefix}.{k}" if prefix else k
+        if isinstance(v, dict) and v:
+            yield from _leaf_paths(v, p)
+        else:
+            yield p
 
 
 def pinned_dispatch_items(rng, n) -> List[Item]:
@@ -2044,6 +2173,10 @@ def hist_switches(rng, cfg, g: G, meta, n_dicts=3):
     P = g.P
     root = g.dataset(rng.randint(1, 3))
     fam = dict_family(rng, cfg, n_dicts)
+    if cfg.effect_reads_options:
+        # the option the effects read is supplied: an effect that cannot run is a failure of the evaluation, which
+        # switching effects off would (legitimately) turn into a success
+        fam = [sort_json(dict(o, OUT="x")) for o in fam]
     recs = []
     combos = list(itertools.product(SWITCH_CACHE, SWITCH_EFFECTS, SWITCH_LOG))
     rng.shuffle(combos)
@@ -2083,7 +2216,7 @@ def hist_switches(rng, cfg, g: G, meta, n_dicts=3):
 
 def c16_programs(rng, tier) -> List[Item]:
     items = corpus_items("C16")
-    cfg = Cfg(raising=False, all_options=False, templates=False)
+    cfg = Cfg(raising=False, all_options=False, templates=False, effect_reads_options=True)
     items += gen_items(rng, cfg, sizes(tier, 120, 1500), hist_switches)
     cfgx = Cfg(raising=False, all_options=False, templates=False, max_depth=99)
     g = gen_items(rng, cfgx, sizes(tier, 15, 150), hist_switches, n_dicts=2)
